@@ -258,6 +258,68 @@ def natural_failures(ctx: Ctx):
                     ctx.violate(sig, f"{name}: run {status} ({et}), output path {state}", {"pdb": text, "options": opts, "trigger": name})
 
 
+def guard_tie(ctx: Ctx, n):
+    """utilities.noninteger_charge against the model (Float), on charges around every kind of total"""
+    from pdb2pqr.utilities import noninteger_charge
+    from props.c17 import bits
+
+    rng = ctx.rng
+    cs = []
+    for _ in range(n):
+        k = rng.randint(-12, 12)
+        frac = rng.choice([0.0, 1e-4, 9.99e-4, 1.0e-3, 1.001e-3, 0.01, 0.1, 0.25, 0.334, 0.49, 0.5, 0.51, 0.7086, 0.84, 0.9, 0.99, 0.999, 0.9995, rng.random(), rng.random() * 1e-3])
+        sign = rng.choice([1, -1])
+        cs.append(sign * (abs(k) + frac))
+    tols = [0.001] * len(cs)
+    ans = ctx.driver.ask([f"charge.nonint\t{bits(float(c))}\t{bits(t)}" for c, t in zip(cs, tols)])
+    for c, t, a in zip(cs, tols, ans):
+        ctx.evaluations += 1
+        real = bool(noninteger_charge(c, t))
+        f = abs(c) - int(abs(c))
+        ctx.count("charge-guard-fraction", "0" if f == 0 else "<tol" if f < 1e-3 or f > 1 - 1e-3 else "<0.5" if f < 0.5 else ">=0.5")
+        ctx.distinct.add(("guard", c < 0, round(f, 3)))
+        if (a == "1") != real:
+            ctx.disagree("utilities.noninteger_charge", {"charge": c, "tol": t}, a == "1", real)
+
+
+def non_integral_totals(ctx: Ctx, n):
+    """inputs whose charges cannot add up to an integer (hydrogen-free peptides under --assign-only,
+    CA traces): whatever the fractional part, either the run fails and leaves the output path alone,
+    or the PQR it writes has an integral total"""
+    rng = ctx.rng
+    seen = set()
+    for ci in range(n):
+        _f, res = G.window(rng, rng.choice([2, 3, 4, 5, 6, 8]))
+        G.set_chain(res, "A", 1)
+        text = G.to_pdb([res])
+        kind = rng.choice(["assign-only", "ca-trace", "assign-only"])
+        if kind == "ca-trace":
+            text = "\n".join(l for l in text.splitlines() if l[12:16].strip() == "CA" or not l.startswith("ATOM")) + "\n"
+            opts = [f"--ff={rng.choice(c01.FFS)}", "--nodebump", "--noopt"]
+        else:
+            opts = [f"--ff={rng.choice(c01.FFS)}", "--assign-only"]
+        for pre in (False, True):
+            status, et, state = run_natural(text, opts, pre, keep=True)
+            ctx.evaluations += 1
+            ctx.count("non-integral-stream", f"{kind}:{status}/{state[0] if isinstance(state, tuple) else state}")
+            problem = None
+            if status == "ok":
+                total = state[1] if isinstance(state, tuple) else None
+                if total is not None:
+                    frac = abs(total - round(total))
+                    ctx.distinct.add(("non-integral", kind, pre, round(frac, 2)))
+                    if frac > 2e-3:
+                        problem = "output-with-non-integral-total"
+            elif (pre and state != "untouched") or (not pre and state != "absent"):
+                problem = f"output-{state}"
+            if problem:
+                sig = {"side": "failure", "trigger": "non-integral-total", "problem": problem}
+                k = tuple(sig.items())
+                if k not in seen:
+                    seen.add(k)
+                    ctx.violate(sig, f"{kind} {opts}: run {status} ({et}), output {state}", {"pdb": text, "options": opts, "trigger": "non-integral-total"})
+
+
 def lone_problem(text, opts):
     """a one-residue chain lacks OXT; the run may succeed only if it rebuilt it"""
     r = G.run_pipeline(text, opts)
@@ -267,7 +329,7 @@ def lone_problem(text, opts):
     return None if "OXT" in names else "declared-unrepairable-but-output-written"
 
 
-def run_natural(text, opts, pre):
+def run_natural(text, opts, pre, keep=False):
     from pdb2pqr.main import build_main_parser, main_driver
 
     G.quiet()
@@ -291,6 +353,19 @@ def run_natural(text, opts, pre):
     else:
         content = open(out).read()
         state = "untouched" if pre and content == sentinel and int(os.stat(out).st_mtime) == 1_000_000_000 else "written"
+        if keep and state == "written":
+            # total of the charge column of the file just written
+            from decimal import Decimal
+
+            tot = Decimal(0)
+            for l in content.splitlines():
+                if l.startswith(("ATOM", "HETATM")):
+                    try:
+                        tot += Decimal(l[54:62].strip())
+                    except Exception:  # noqa: BLE001
+                        tot = None
+                        break
+            state = ("written", float(tot) if tot is not None else None)
     for fn in os.listdir(d):
         os.unlink(os.path.join(d, fn))
     os.rmdir(d)
@@ -344,10 +419,13 @@ def attribute(text, res, ff):
 def run(ctx: Ctx):
     ctx.extra["rule"] = (
         "fault injection: every stage of the generated main_driver / non_trivial skeleton x {ValueError, RuntimeError} x output path {absent, pre-existing}; natural failures (11 triggers x 2 path states); "
+        "charge guard: noninteger_charge vs the model on charges with every kind of fractional part; hydrogen-free peptides under --assign-only and CA traces (totals that cannot be integral): fail and leave the path alone, or write an integral total; "
         "success side: complete peptide windows with each of the 20 residue types forced in turn x six force fields; a case is (stage, exception, path state) / (trigger, path state) / (ff, first, last residue); distinct counts distinct tuples"
     )
     fault_injection(ctx, ctx.scale(1, 6))
     natural_failures(ctx)
+    guard_tie(ctx, ctx.scale(400, 20000))
+    non_integral_totals(ctx, ctx.scale(12, 400))
     success_side(ctx, ctx.scale(20, 600))
 
 
